@@ -57,8 +57,11 @@ RECURSIVE PrefixesAreDirs(_, _, _)
 PrefixesAreDirs(T, path, k) ==
   IF k = 0 THEN TRUE
   ELSE (\E e \in T : e.path = SubSeq(path, 1, k) /\ e.kind = "dir") /\ PrefixesAreDirs(T, path, k - 1)
+NAME_MAX == 255
+TooLong(path) == \E i \in 1..Len(path) : Len(path[i]) > NAME_MAX     \* the OS refuses such a component
 StateOf(T, path) ==
   IF path = <<>> THEN "dir"
+  ELSE IF TooLong(path) THEN "notdir"
   ELSE IF ~PrefixesAreDirs(T, path, Len(path) - 1) THEN "notdir"
   ELSE IF \E e \in T : e.path = path /\ e.kind = "file" THEN "file"
   ELSE IF \E e \in T : e.path = path /\ e.kind = "dir" THEN "dir"
